@@ -188,6 +188,15 @@ pub fn t1_push() -> T1Profile {
     p
 }
 
+/// Promises first, pushed responses later and possibly in reverse order (PUSH_PROMISE
+/// already on the wire when the response is submitted).
+pub fn t1_push_deferred() -> T1Profile {
+    let mut p = t1_push();
+    p.name = "t1-push-deferred";
+    p.work.deferred_pushes = true;
+    p
+}
+
 pub fn t1_push_unadopted() -> T1Profile {
     let mut p = T1Profile::base("t1-push-unadopted");
     p.work.pushes = true;
@@ -211,6 +220,7 @@ pub fn all_scenarios() -> Vec<Scenario> {
         Scenario::T1(t1_headers()),
         Scenario::T1(t1_graceful()),
         Scenario::T1(t1_selfclose()),
+        Scenario::T1(t1_push_deferred()),
         Scenario::T1(t1_capacity()),
         Scenario::T1(t1_inject()),
         Scenario::T1(t1_inject_fatal()),
@@ -279,7 +289,7 @@ pub fn entries_for(prop: &str) -> Vec<Entry> {
             e(t1(t1_fatal()), 2000, 60_000),
             e(t1(t1_shutdown()), 2000, 60_000),
         ],
-        "C05" => vec![e(t1(t1_conc()), 6000, 200_000), e(t1(t1_aborts()), 3000, 100_000), e(t1(t1_coop_settings()), 2000, 60_000)],
+        "C05" => vec![e(t1(t1_conc()), 6000, 200_000), e(t1(t1_aborts()), 3000, 100_000), e(t1(t1_push_deferred()), 3000, 100_000), e(t1(t1_coop_settings()), 2000, 60_000)],
         "C06" => vec![e(t1(t1_coop()), 5000, 200_000), e(t1(t1_coop_settings()), 5000, 200_000), e(t1(t1_aborts()), 3000, 100_000), e(t1(t1_conc()), 1500, 50_000), e(t1(t1_push()), 1500, 50_000)],
         "C07" => vec![
             Entry { scenario: Scenario::T1Sweep(t1_sweep("t1-sweep-quick"), true), quick: 40, thorough: 0 },
@@ -290,7 +300,7 @@ pub fn entries_for(prop: &str) -> Vec<Entry> {
             e(t1(t1_fatal_push()), 3000, 100_000),
             e(t1(t1_shutdown()), 3000, 100_000),
         ],
-        "C15" => vec![e(t1(t1_shutdown()), 6000, 250_000), e(t1(t1_graceful()), 4000, 150_000), e(t2s("t2-graceful"), 5000, 200_000), e(t2s("t2-push-goaway"), 2000, 60_000), e(t1(t1_fatal()), 1500, 50_000)],
+        "C15" => vec![e(t1(t1_shutdown()), 6000, 250_000), e(t1(t1_graceful()), 4000, 150_000), e(t2s("t2-graceful"), 5000, 200_000), e(t2s("t2-push-goaway"), 2000, 60_000), e(t1(t1_push_deferred()), 4000, 100_000), e(t1(t1_fatal()), 1500, 50_000)],
         "C16" => vec![e(t1(t1_capacity()), 8000, 250_000), e(t1(t1_coop_settings()), 3000, 100_000), e(t1(t1_aborts()), 3000, 100_000), e(t1(t1_conc()), 2000, 60_000)],
         "C20" => vec![e(t1(t1_inject()), 12_000, 400_000), e(t1(t1_inject_fatal()), 4000, 100_000)],
         "C08" => vec![e(t2s("t2-corrupt"), 8000, 300_000), e(t2s("t2-push-goaway"), 3000, 100_000), e(t2s("t2-violation"), 3000, 100_000), e(t2s("t2-flood"), 1500, 40_000), e(t2s("t2-hpack"), 2000, 60_000), e(t2s("t2-malformed"), 2000, 60_000), e(t1(t1_fatal()), 2000, 60_000)],
